@@ -348,6 +348,12 @@ def run(ctx):
 def replay(ctx, rep):
     c = rep['case']
     from pyModelChecking.BDD import OBDD
+    if 'spelled' in c:
+        order = c['order']
+        o = OBDD(c['expr'], list(order))
+        o2 = OBDD(c['spelled'], list(order))
+        check_equal('c18.synonyms', c, o2, o, order, 'spelling == symbols')
+        return
     if 'order' in c and 'form' not in c:
         # rebuild from text through Python's own parser is not needed: the
         # expression text itself is replayed
